@@ -11,18 +11,25 @@ Require Import proofs.EmitProofs.
 Import ListNotations.
 Open Scope list_scope.
 
-(* the base clause the C++ emitter writes is a well-formed base clause exactly when the
-   interface has at most one ancestor *)
-Theorem C11_cpp_base_clause : forall ancestors,
-  wf_base_clause (cpp_base_clause ancestors) = Nat.leb (List.length ancestors) 1.
-Proof. exact base_clause_wf_iff. Qed.
+(* the base clause of a generated C++ class, for a hierarchy of any depth: when the emitter
+   names only the immediate base it is always well formed ... *)
+Theorem C11_cpp_base_clause : cpp_base_only_immediate = true ->
+  forall ancestors, wf_base_clause (cpp_base_clause ancestors) = true.
+Proof. intros H ancestors. unfold cpp_base_clause. rewrite H. apply base_clause_immediate_wf. Qed.
 Print Assumptions C11_cpp_base_clause.
 
-(* hence "inheritance deeper than two levels" is refuted for the C++ backend *)
-Theorem C11_deep_hierarchy_refuted :
-  exists ancestors, wf_base_clause (cpp_base_clause ancestors) = false.
-Proof. exists ["IB"; "IA"]%string. reflexivity. Qed.
-Print Assumptions C11_deep_hierarchy_refuted.
+(* ... and when it pushes every ancestor after one ": public" (the pinned upstream emitter)
+   exactly for at most one ancestor: "inheritance deeper than two levels" was refuted there *)
+Theorem C11_cpp_base_clause_upstream : cpp_base_only_immediate = false ->
+  forall ancestors, wf_base_clause (cpp_base_clause ancestors) = Nat.leb (List.length ancestors) 1.
+Proof. intros H ancestors. unfold cpp_base_clause. rewrite H. apply base_clause_spaced_wf_iff. Qed.
+Print Assumptions C11_cpp_base_clause_upstream.
+
+(* which of the two applies to the tree being checked (regenerated fact): after the repair of
+   the base clause the first one *)
+Theorem C11_cpp_base_clause_current : forall ancestors, wf_base_clause (cpp_base_clause ancestors) = true.
+Proof. exact (C11_cpp_base_clause eq_refl). Qed.
+Print Assumptions C11_cpp_base_clause_current.
 
 (* suffixed identifiers: whatever a parameter is called, none of the names derived from it by
    a suffix is a local of any template *)
